@@ -452,6 +452,11 @@ func (hs *clientHandshakeStateGM) processServerHello() (bool, error) {
 		}
 	}
 
+	if hs.serverHello.ticketSupported && !hs.hello.ticketSupported {
+		c.sendAlert(alertHandshakeFailure)
+		return false, errors.New("tls: server sent a session ticket extension that was not offered")
+	}
+
 	clientDidNPN := hs.hello.nextProtoNeg
 	clientDidALPN := len(hs.hello.alpnProtocols) > 0
 	serverHasNPN := hs.serverHello.nextProtoNeg
